@@ -363,6 +363,8 @@ def run_batch(chk, cases, via_binary=False):
             continue
         good_i = ig is not None and vf.sx_get(vi, 'good') == 'true'
         good_m = mg is not None and vf.sx_get(vm, 'good') == 'true'
+        if chk.tier == 'thorough' and ig is not None and len(xc(chk)) < 400 and sum(len(g) for g in egroups):
+            xc(chk).append((lang, egroups, ig, vf.sx_get(vi, 'dom'), vf.sx_get(vi, 'good')))
         known = vf.sx_opt(vf.sx_get(vi, 'known'))
         nkeys = sum(len(g) for g in egroups)
         chk.count(f'judged_{lang}')
@@ -379,7 +381,8 @@ def run_batch(chk, cases, via_binary=False):
             chk.violation(f'model-{lang}-{prog.seed}-{it.ident}', payload, 'the extracted model violates its own theorem (good_groups_C01 false on the model observation)', no_input=not (not good_i))
             nviol += 1
         if good_i and same:
-            chk.sample({'lang': lang, 'item': it.ident, 'keys': egroups}, cap=8)
+            if nkeys >= 3 and any('-' in kk for g in egroups for kk in g):
+                chk.sample({'lang': lang, 'item': it.ident, 'serde_keys': egroups, 'bound': ig}, cap=8)
             continue
         if not good_i:
             if known is not None and same and chk.known(known, payload):
@@ -395,6 +398,33 @@ def run_batch(chk, cases, via_binary=False):
         soft(chk).append(('correspondence', dict(mismatch[0], n_cases=len(mismatch)),
                           'model and implementation observations (definition, member, wire key, binding) differ although the implementation satisfies good_C01'))
     return nviol
+
+
+def xc(chk):
+    if not hasattr(chk, 'c01_xc'):
+        chk.c01_xc = []
+    return chk.c01_xc
+
+
+BIND_COQ = {'name': 'BName', 'quoted': 'BQuoted', 'serial_name': 'BSerialName', 'coding_key': 'BCodingKey', 'json_tag': 'BJsonTag', 'alias': 'BAlias'}
+
+
+def cross_check_extraction(chk):
+    """thorough tier: a sample of the verdicts the EXTRACTED predicates gave is recomputed inside Coq (vm_compute)"""
+    def cl(xs, f):
+        return '[' + '; '.join(f(x) for x in xs) + ']'
+    def mem(m):
+        return ('{| mb_name := ' + vf.coq_lit_str(m[0]) + '; mb_escaped := false; mb_key := ' + vf.coq_lit_str(m[1] or '') + '; mb_binding := ' + BIND_COQ[m[2]] +
+                '; mb_optional := false; mb_type := XRaw []; mb_docs := [] |}')
+    eqs = []
+    for lang, eg, ig, dom, good in xc(chk):
+        e = cl(eg, lambda g: cl(g, vf.coq_lit_str))
+        gs = cl(ig, lambda g: cl(g, mem))
+        eqs.append(f'(dom_C01 {COQ_LANG[lang]} {e}, good_groups_C01 {COQ_LANG[lang]} {e} {gs}) = ({dom}, {good})')
+    bad = vf.coq_check_equalities('From Coq Require Import List NArith. Import ListNotations.\nFrom TS Require Import Model.Str Model.Types Model.Lang.Decl Spec.C01Spec.', eqs)
+    chk.counters['verdicts_recomputed_in_coq'] = len(eqs)
+    for name, rc, msg in bad:
+        chk.violation('extraction-cross-check', {'file': name, 'detail': msg}, 'a verdict of the extracted predicates is not reproduced by vm_compute inside Coq', no_input=True)
 
 
 def soft(chk):
@@ -471,7 +501,7 @@ def run_ir_batch(chk, n):
         chk.evaluations += 1
         chk.count(f'ir_judged_{lang}')
         if sum(len(g) for g in eg):
-            chk.nontrivial.add(('ir', json.dumps(payload['items'], sort_keys=True)[:0] + ident, lang, len(chk.nontrivial)))
+            chk.nontrivial.add(('ir', ident, lang, len(chk.nontrivial)))
         good = ig is not None and vf.sx_get(v, 'good') == 'true'
         pl = dict(payload, item=ident, expected=eg, impl_groups=ig, model_groups=mg)
         if not good:
@@ -526,6 +556,7 @@ def run(chk):
     report_soft(chk)
     if chk.tier == 'thorough':
         serde_ground_truth(chk, seeds[:1500])
+        cross_check_extraction(chk)
 
 
 # ---------------------------------------------------------------- thorough: real serde_derive + serde_json
@@ -633,6 +664,31 @@ def serde_ground_truth(chk, seeds):
 def replay(chk, path):
     p = json.loads(pathlib.Path(path).read_text())
     chk.prepare(need_cli=False)
+    if 'items' in p and 'lang' in p:      # IR-level case
+        lang, cfg, items, rec = p['lang'], p['cfg'], p['items'], p.get('reconcile', False)
+        r = back.run_ir([(lang, cfg, items, rec)])[0]
+        m = vf.model([f'(decls_ir {lang} {back.cfg_sx(cfg)} {back.items_sx(items)} {vf.B(rec)})'])[0]
+        print('--- implementation output'); print(r['impl'][1] if r['impl'][0] == 'ok' else r['impl'])
+        io = obs_impl(lang, r['impl'][1])[0] if r['impl'][0] == 'ok' else []
+        print('--- implementation observation'); print(json.dumps(io))
+        print('--- model observation'); print(json.dumps(obs_model(lang, m[1]) if m[0] == 'ok' else m))
+        pre = cfg.get('prefix', '') if lang in ('kotlin', 'swift') else ''
+        for st in items['structs'] + items['enums']:
+            if 'fields' in st:
+                eg = [[f['id']['renamed'] for f in st['fields']]]
+                ig = ([d['groups'] for d in io if d['kind'] == 'struct' and d['inner_of'] is None and d['name'] == pre + st['id']['renamed']] or [None])[0]
+            else:
+                eg = [[f['id']['renamed'] for f in v['fields']] for v in st['variants'] if v['k'] == 'struct']
+                if lang == 'typescript':
+                    ig = ([d['groups'] for d in io if d['kind'] == 'enum' and d['name'] == st['id']['renamed']] or [None])[0]
+                else:
+                    ig = [g for d in io if d['kind'] == 'struct' and d['inner_of'] and d['inner_of'][0] == st['id']['original'] for g in d['groups']]
+            v = vf.model([f'(c01_judge {COQ_LANG[lang]} {Lst(eg, lambda g: Lst(g, S))} {sx_groups(ig or [])})'])[0]
+            print(' ', st['id']['original'], eg, 'judged:', vf.dump_sx(v), 'groups', ig)
+            if r['impl'][0] == 'ok' and vf.sx_get(v, 'dom') == 'true' and not (ig is not None and vf.sx_get(v, 'good') == 'true'):
+                chk.violation(f'replay-ir-{st["id"]["original"]}', dict(p, item=st['id']['original']), f'{lang} (IR level): keys bound are not the renamed ids {eg}')
+        chk.evaluations += 1
+        return chk.finish()
     if 'src' not in p:
         print(json.dumps(p, indent=1)[:2000])
         return chk.finish()
